@@ -494,6 +494,7 @@ func extractLogic(repo string) (string, []string, error) {
 		{"timerArm", "def timerArmSites : List String := []", piece_timerArm},
 		{"readRecord", "def readRecordResets : Bool := untranslated ()", piece_readRecord},
 		{"newWriter", "def newWriterMap : List (String × String) := []", piece_newWriter},
+		{"completeOrder", "def completeStoresErrFirst : Bool := untranslated ()", piece_completeOrder},
 		{"roundTripDeadline", "def roundTripDeadlineSetters : List String := []", func(ef, wf *ast.File) (string, error) { return piece_roundTripDeadline(repo) }},
 	}
 	var sb strings.Builder
